@@ -44,6 +44,8 @@ fn main() {
     let mut no_git = false;
     let mut flavour_arg: Option<String> = None;
     let mut seed_arg: Option<u64> = None;
+    let mut cold_probe: Option<usize> = None;
+    let mut no_cold = false;
     {
         let mut i = 3;
         while i < args.len() {
@@ -68,6 +70,11 @@ fn main() {
                     seed_arg = Some(args[i + 1].parse::<i64>().unwrap() as u64);
                     i += 1;
                 }
+                "--cold-probe" => {
+                    cold_probe = Some(args[i + 1].parse().unwrap());
+                    i += 1;
+                }
+                "--no-cold" => no_cold = true,
                 "--skip-selftest" => skip_selftest = true,
                 "--no-git" => no_git = true,
                 "--replay" => i += 1,
@@ -96,6 +103,21 @@ fn main() {
     install_hook();
     let t0 = Instant::now();
 
+    // cold-start probe (child process of a deciding run): the monitors of this property applied to one anchor are the
+    // first library calls of this process; the outcome goes to stdout as one JSON document
+    if let Some(ci) = cold_probe {
+        let mut rep = Rep::new(100 + ci as u32, None, known_open.clone());
+        props::cold::run(&prop, &cfg, &mut rep, ci);
+        let viol: Vec<Value> = rep.viol.values().flatten().map(|v| json!({"sig": v.sig, "idx": v.idx, "detail": v.detail})).collect();
+        let doc = json!({
+            "probe": ci, "evals": rep.evals, "viol": viol, "viol_count": rep.viol_count,
+            "known": rep.known.iter().map(|(k, v)| (k.clone(), json!([v.0, v.1]))).collect::<serde_json::Map<String, Value>>(),
+            "panics": PANICS_CAUGHT.with(|c| c.get()),
+        });
+        println!("COLD-RESULT {}", doc);
+        std::process::exit(0);
+    }
+
     // model self-tests (a failure means the machinery is wrong: inconclusive, never a violation)
     if !skip_selftest {
         match hfverif::model::cal::self_test() {
@@ -118,6 +140,15 @@ fn main() {
         });
     }
 
+    if let Some((sh, _)) = replay {
+        if sh >= 100 {
+            let mut rep = Rep::new(sh, replay, known_open.clone());
+            props::cold::run(&prop, &cfg, &mut rep, (sh - 100) as usize);
+            let bad = !rep.viol.is_empty();
+            println!("REPLAY (cold-start probe {}) verdict: {}", sh - 100, if bad { "VIOLATION reproduced" } else if !rep.known.is_empty() { "known finding reproduced" } else { "no violation on this tree" });
+            std::process::exit(if bad { 1 } else { 0 });
+        }
+    }
     let shards: Vec<u32> = match (replay, one_shard) {
         (Some((s, _)), _) => vec![s],
         (None, Some(k)) => vec![k],
@@ -160,6 +191,65 @@ fn main() {
                 std::process::exit(2);
             }
         }
+    }
+    // cold-start probes: fresh processes whose first library calls are this property's monitors on one anchor each
+    let mut cold_json = json!({"processes": 0});
+    if replay.is_none() && one_shard.is_none() && !no_cold {
+        let exe = std::env::current_exe().expect("current_exe");
+        let mut kids = vec![];
+        for ci in 0..props::cold::COUNT {
+            let child = std::process::Command::new(&exe)
+                .args([prop.as_str(), tier.name(), "--cold-probe", &ci.to_string(), "--seed", &(seed as i64).to_string(), "--skip-selftest", "--no-git"])
+                .env("VERIF_DIR", &verif_dir)
+                .stdout(std::process::Stdio::piped())
+                .stderr(std::process::Stdio::null())
+                .spawn();
+            kids.push((ci, child));
+        }
+        let mut cold_evals = 0u64;
+        let mut cold_ok = 0u64;
+        for (ci, child) in kids {
+            let out = match child.and_then(|c| c.wait_with_output()) {
+                Ok(o) => o,
+                Err(e) => {
+                    println!("INCONCLUSIVE property={} cold-start probe {} could not be run: {}", prop, ci, e);
+                    std::process::exit(2);
+                }
+            };
+            let text = String::from_utf8_lossy(&out.stdout).to_string();
+            let doc: Option<Value> = text.lines().find_map(|l| l.strip_prefix("COLD-RESULT ")).and_then(|j| serde_json::from_str(j).ok());
+            let doc = match doc {
+                Some(d) if out.status.success() => d,
+                _ => {
+                    println!("INCONCLUSIVE property={} cold-start probe {} ended without a result (status {:?})", prop, ci, out.status.code());
+                    std::process::exit(2);
+                }
+            };
+            let mut rep = Rep::new(100 + ci as u32, None, known_open.clone());
+            rep.evals = doc["evals"].as_u64().unwrap_or(0);
+            cold_evals += rep.evals;
+            cold_ok += 1;
+            panics += doc["panics"].as_u64().unwrap_or(0);
+            if let Some(a) = doc["viol"].as_array() {
+                for v in a {
+                    let sig = format!("cold-start/{}", v["sig"].as_str().unwrap_or("?"));
+                    rep.viol.entry(sig.clone()).or_default().push(Violation { sig, shard: 100 + ci as u32, idx: v["idx"].as_u64().unwrap_or(0), detail: format!("[first calls of a fresh process, probe {}] {}", ci, v["detail"].as_str().unwrap_or("")) });
+                }
+            }
+            if let Some(m) = doc["viol_count"].as_object() {
+                for (k, n) in m {
+                    rep.viol_count.insert(format!("cold-start/{}", k), n.as_u64().unwrap_or(1));
+                }
+            }
+            if let Some(m) = doc["known"].as_object() {
+                for (k, v) in m {
+                    rep.known.insert(k.clone(), (v[0].as_u64().unwrap_or(1), v[1].as_str().unwrap_or("").to_string()));
+                }
+            }
+            rep.classes.insert("cold-start-probe".into(), 1);
+            total.merge(rep);
+        }
+        cold_json = json!({"processes": cold_ok, "evaluations": cold_evals, "anchors": "props/cold.rs EPOCH_ANCHORS x dur_anchor"});
     }
     let wall = t0.elapsed().as_secs_f64();
 
@@ -250,6 +340,7 @@ fn main() {
             "scale": scale,
             "repo_rev": repo_rev,
             "shards": NSHARDS,
+            "cold_start_probes": cold_json,
         },
         "assumptions": meta.assumptions,
         "wall_s": wall,
